@@ -38,17 +38,39 @@ var cur *Obs
 type Scen struct {
 	Name    string
 	Threads []string // "step:r1", "signal:r1", ...
+	// Before: calls issued one after the other, each returning before the next, before the threads start - the
+	// callable schema of a long-lived plugin has served many runs by the time the calls under judgement arrive
+	Before []string
+}
+
+// manyRuns: "step:<prefix>01" ... "step:<prefix>NN"
+func manyRuns(prefix string, n int) []string {
+	var out []string
+	for i := 1; i <= n; i++ {
+		out = append(out, fmt.Sprintf("step:%s%02d", prefix, i))
+	}
+	return out
 }
 
 func Scens(tier string) []Scen {
 	out := []Scen{
-		{"step r1 | signal r1", []string{"step:r1", "signal:r1"}},
-		{"signal r1 | signal r1", []string{"signal:r1", "signal:r1"}},
-		{"step r1 | signal r1 | signal r2 | step r2", []string{"step:r1", "signal:r1", "signal:r2", "step:r2"}},
-		{"step r1 | step r2 | signal r1", []string{"step:r1", "step:r2", "signal:r1"}},
+		{Name: "step r1 | signal r1", Threads: []string{"step:r1", "signal:r1"}},
+		{Name: "signal r1 | signal r1", Threads: []string{"signal:r1", "signal:r1"}},
+		{Name: "step r1 | signal r1 | signal r2 | step r2", Threads: []string{"step:r1", "signal:r1", "signal:r2", "step:r2"}},
+		{Name: "step r1 | step r2 | signal r1", Threads: []string{"step:r1", "step:r2", "signal:r1"}},
 	}
+	// a run whose step has long returned, or whose first signal came long ago, is still that run: 70 other runs in between
+	// (more than any table size of 64 or less that a plugin might think of bounding its bookkeeping by)
+	out = append(out,
+		Scen{Name: "step r1, 70 other runs, then: signal r1 | step r2", Threads: []string{"signal:r1", "step:r2"},
+			Before: append([]string{"step:r1"}, manyRuns("q", 70)...)},
+		Scen{Name: "signal r1, 70 other runs, then: step r1 | signal r1", Threads: []string{"step:r1", "signal:r1"},
+			Before: append([]string{"signal:r1"}, manyRuns("q", 70)...)},
+		Scen{Name: "step r1, signal r1, 33 other runs, signal r1, 33 other runs, then: signal r1 | signal q01", Threads: []string{"signal:r1", "signal:q01"},
+			Before: append(append(append([]string{"step:r1", "signal:r1"}, manyRuns("q", 33)...), "signal:r1"), manyRuns("p", 33)...)},
+	)
 	if tier == "thorough" {
-		out = append(out, Scen{"step r1 | signal r1 | signal r1 | signal r2 | step r2", []string{"step:r1", "signal:r1", "signal:r1", "signal:r2", "step:r2"}})
+		out = append(out, Scen{Name: "step r1 | signal r1 | signal r1 | signal r2 | step r2", Threads: []string{"step:r1", "signal:r1", "signal:r1", "signal:r2", "step:r2"}})
 	}
 	return out
 }
@@ -78,6 +100,22 @@ func Body(sc Scen) func() {
 				return "success", map[string]any{"message": "done " + run}
 			}))
 		var wg mcrt.WaitGroup
+		issue := func(kind, run string) {
+			if kind == "step" {
+				id, data, err := cs.CallStep(context.Background(), run, "s", map[string]any{"x": run})
+				if err != nil || id != "success" || data.(map[string]any)["message"] != "done "+run {
+					o.errs = append(o.errs, fmt.Sprintf("CallStep(%s) -> (%q, %v, %v)", run, id, data, err))
+				}
+			} else {
+				if err := cs.CallSignal(context.Background(), run, "s", "sig", map[string]any{"run": run}); err != nil {
+					o.errs = append(o.errs, fmt.Sprintf("CallSignal(%s) -> %v", run, err))
+				}
+			}
+		}
+		for _, th := range sc.Before {
+			parts := strings.SplitN(th, ":", 2)
+			issue(parts[0], parts[1])
+		}
 		for i, th := range sc.Threads {
 			parts := strings.SplitN(th, ":", 2)
 			kind, run := parts[0], parts[1]
@@ -126,7 +164,7 @@ func Judge(sc Scen, r *mcrt.Result) (string, []mc.Finding) {
 		add("call failed under concurrency", e)
 	}
 	runs := map[string]bool{}
-	for _, th := range sc.Threads {
+	for _, th := range append(append([]string{}, sc.Before...), sc.Threads...) {
 		runs[strings.SplitN(th, ":", 2)[1]] = true
 	}
 	if o.inits != len(runs) {
@@ -143,7 +181,7 @@ func Judge(sc Scen, r *mcrt.Result) (string, []mc.Finding) {
 				add("signal handler saw other step data than its run's", fmt.Sprintf("run %s: step data %v, signal data %v", run, want, d))
 			}
 		}
-		if sd, ok := o.stepData[run].(*stepData); ok {
+		if sd, ok := o.stepData[run].(*stepData); ok && strings.HasPrefix(run, "r") {
 			order = append(order, fmt.Sprintf("%s=#%d", run, sd.id))
 		}
 	}
